@@ -119,9 +119,13 @@ impl<L: Localize> OpeningHours<L> {
         (self.expr.rules)
             .iter()
             .map(|rule| {
-                if rule.time_selector.is_immutable_full_day()
-                    || !rule.day_selector.filter(date, &self.ctx)
-                {
+                // A rule that applied the day before may still spill over midnight into `date`,
+                // in which case the schedule changes again on the next day.
+                let is_active = rule.day_selector.filter(date, &self.ctx)
+                    || (date.pred_opt())
+                        .is_some_and(|prev| rule.day_selector.filter(prev, &self.ctx));
+
+                if rule.time_selector.is_immutable_full_day() || !is_active {
                     rule.day_selector.next_change_hint(date, &self.ctx)
                 } else {
                     date.succ_opt()
